@@ -40,10 +40,14 @@ class Item:
   """Sortable only through __lt__ on score, like TBRMMDesign."""
   __slots__ = ('score', 'uid')
   countdown = None      # comparisons left before an injected interrupt
+  nested_fired = False
 
   def __init__(self, score, uid):
     self.score = score
     self.uid = uid
+
+  nest = None           # (container, key, item): pushed from inside the next
+                        # comparison (an item whose __lt__ logs what it sees)
 
   def __lt__(self, other):
     if Item.countdown is not None:
@@ -51,6 +55,11 @@ class Item:
       if Item.countdown <= 0:
         Item.countdown = None
         raise InjectedInterrupt()
+    if Item.nest is not None:
+      container, key, item = Item.nest
+      Item.nest = None
+      Item.nested_fired = True
+      container.push(key, item)
     return self.score < other.score
 
   def __repr__(self):
@@ -149,6 +158,7 @@ def generate(rng, tier, profile='default'):
         cl['shape'] = 'random'
   p_mut = rng.choice((0.0, 0.3, 0.6))
   p_intr = rng.choice((0.0, 0.0, 0.15, 0.3))
+  p_nest = rng.choice((0.0, 0.0, 0.0, 0.3))
   ops = []
   sent = [0] * n_clients
   uid = 0
@@ -172,6 +182,22 @@ def generate(rng, tier, profile='default'):
       uid += 1
       ops.append({'op': 'push', 'c': c,
                   'v': _encode_level(rng, cl['family'], level, uid)})
+      if (p_nest and cl['family'].startswith('item') and n_clients > 1 and
+          rng.random() < p_nest):
+        # while this push compares items, another push (other key, same
+        # container) happens from inside the comparison
+        others = [j for j in range(n_clients)
+                  if clients[j]['h'] == cl['h'] and
+                  _decode_key(clients[j]['key']) != _decode_key(cl['key'])]
+        if others:
+          j = rng.choice(others)
+          uid += 1
+          ops[-1]['nest'] = {
+              'c': j, 'v': _encode_level(
+                  rng, clients[j]['family'],
+                  _gen_value(rng, clients[j]['family'], clients[j]['shape'],
+                             sent[j], -100), uid)}
+          sent[j] += 1
   if rng.random() < 0.05:
     # an integral FLOAT capacity (n_designs=2.0 is accepted by the parameter
     # class and handed to the container as it is)
@@ -352,12 +378,26 @@ def execute(desc):
           probe('tie_at_eviction_boundary')
       if k == 0:
         probe('k0_push')
+      nest = op.get('nest')
+      if nest:
+        ncl = clients[nest['c']]
+        nkey = _decode_key(ncl['key'])
+        nitem = _decode_value(ncl['family'], nest['v'])
+        Item.nested_fired = False
+        Item.nest = (h, nkey, nitem)
       try:
         h.push(key, item)
       except Exception as e:  # pylint: disable=broad-except
+        Item.nest = None
         viol = core.violation(PROPERTY, 'H3', step, kind,
                               'push raised %s' % type(e).__name__)
         break
+      if nest:
+        Item.nest = None
+        if Item.nested_fired:
+          model.setdefault(nkey, []).append(nitem)
+          stats['faults']['push_nested_in_comparison'] = (
+              stats['faults'].get('push_nested_in_comparison', 0) + 1)
       pushed.append(item)
       absig.append(('push', op['c'], rel))
       events.append([step, 'push', hi, core.canon(cl['key']), _show(item)])
@@ -436,12 +476,15 @@ def execute(desc):
 def normalize(desc):
   """Repair a description after ops or clients were removed."""
   d = copy.deepcopy(desc)
-  used = sorted({op['c'] for op in d['ops'] if op['op'] == 'push'})
+  used = sorted({op['c'] for op in d['ops'] if op['op'] == 'push'} |
+                {op['nest']['c'] for op in d['ops'] if op.get('nest')})
   remap = {c: i for i, c in enumerate(used)}
   d['clients'] = [d['clients'][c] for c in used] or d['clients'][:1]
   for op in d['ops']:
     if op['op'] == 'push':
       op['c'] = remap[op['c']]
+      if op.get('nest'):
+        op['nest']['c'] = remap[op['nest']['c']]
   return d
 
 
@@ -462,6 +505,11 @@ def simplifications(desc):
       if 'h' in op:
         op['h'] = 0
     yield d
+  for i, op in enumerate(desc['ops']):
+    if op.get('nest'):
+      d = copy.deepcopy(desc)
+      del d['ops'][i]['nest']
+      yield d
   for i, op in enumerate(desc['ops']):
     if op['op'] == 'read_mutate':
       d = copy.deepcopy(desc)
